@@ -35,6 +35,20 @@ func runServiceRules(c *Ctx) {
 				okKey := false
 				if ok {
 					okKey = canon(mu.Key) == "*("+canon(ld.X)+".Id)"
+					// or: the very value that was assigned to the stored service's Id before (m[id] = service after service.Id = id)
+					if a, isAlloc := ld.X.(*ssa.Alloc); isAlloc && !okKey {
+						for _, r := range *a.Referrers() {
+							fa, isFA := r.(*ssa.FieldAddr)
+							if !isFA || fieldName(fa.X.Type(), fa.Field) != "Id" {
+								continue
+							}
+							for _, r2 := range *fa.Referrers() {
+								if st, isSt := r2.(*ssa.Store); isSt && st.Addr == ssa.Value(fa) && st.Val == mu.Key && dominatesInstr(st, mu) {
+									okKey = true
+								}
+							}
+						}
+					}
 				}
 				idExpr := b.bind(mu.Key)
 				c.Check(okKey && strings.Contains(idExpr, "col:service_id"), "SVC", shortName(f), "service stored under its own service_id", p.ipos(mu), "m[service.Id] = service with Id <- service_id", "a service is stored under a key that is not its own service_id (key "+clip(idExpr, 60)+")")
